@@ -798,7 +798,8 @@ var EngineC19 = &core.Engine{
 	Level: "exploration",
 	Rule: "the chains and 25 finishers of C01 (raw/named/map/struct/clause/grouped conditions, sub-queries, Select/Joins/Having/Order expressions, creates from struct/slice/map/[]map, upserts, Save, Raw/Exec) on the real columns of a seeded SQLite table, plus Row() finishers, a sub-query handle used by two statements, 11 soft-delete operations, 10 writes of a model that tracks its times as unix numbers (seconds, milli, nano, unsigned), " +
 		"18 operations of a multi-tenant model whose statement depends on the context of the handle (Before* hooks reading Statement.Context, a scope reading it, a gorm.Valuer as condition / assigned / map value, a field type with GormValue, a serializer using its ctx), " +
-		"16 finishers entered with the statement text already there (Raw(text) followed by Create of a struct / slice / map, Find, First, Take, Scan, Pluck, Count, Update, Updates, UpdateColumn, Delete with and without inline condition, Row, Rows; or a plugin callback in front of the executor that writes Statement.SQL), and the second use (14 finishers) of the value a dry run (9 finishers) returned; " +
+		"16 finishers entered with the statement text already there (Raw(text) followed by Create of a struct / slice / map, Find, First, Take, Scan, Pluck, Count, Update, Updates, UpdateColumn, Delete with and without inline condition, Row, Rows; or a plugin callback in front of the executor that writes Statement.SQL), and the second use (14 finishers) of the value a dry run (9 finishers) returned, " +
+		"and 12 finishers that gorm may refuse before their statement, on a plain / soft-delete / unix-time model: Update, Updates(struct / map), UpdateColumn(s), Delete, Unscoped().Delete, Delete(&[]T{}) behind no condition that counts as a WHERE (none, Where(&T{}), Order, Select/Omit: refused with ErrMissingWhereClause) or behind one that does (Where, primary key in the model, inline condition), with AllowGlobalUpdate off or (1/4) switched on by a session, plus Create(&[]T{}), Update without Model, Updates(non-struct), Delete(nil); " +
 		"each executed from identically derived handles and logical clocks: Session{DryRun}, a scope returning Session{DryRun}, Session{DryRun} derived mid-chain, Config.DryRun, ToSQL (on the handle, on a chain value carrying part of the chain, on handles that already run dry), and for real behind the recording driver; " +
 		"the handles are the root handle or (drawn per operation) h.WithContext(ctx) / h.Session(&Session{Context: ctx}) with a value in ctx (1/4 of all operations, 7/8 of the context-dependent ones, where the operation may also derive the context handle itself), h.Session(&Session{PrepareStmt: true}) (1/8), a transaction h.Begin() rolled back afterwards (1/8), and their combinations; " +
 		"distinct = (finisher, SQL verb, number of bound values, number of real statements, clause skeleton); non-trivial = the real run sent at least one statement that was compared with the dry run's SQL and bound values",
@@ -810,6 +811,8 @@ var EngineC19 = &core.Engine{
 		"contexts are live and carry one value; cancelled or expired contexts are not generated (what a dry run does under a dead context is not fixed by the statement)",
 		"going on with the value a finisher returned is not a reusable handle: for the second use of a dry run's result only 'no statement reaches the driver' is demanded, not what it exposes; the real run executes the first operation only",
 		"operations whose statement text is given beforehand (Raw + finisher, statement-writing plugin) are compared as they are: the given text and values are what the real run sends; hooks that run statements of their own are not generated",
+		"an operation whose real run sends no statement and ends in an error (gorm refused it before the statement: ErrMissingWhereClause, ErrEmptySlice, ErrInvalidData, no model / table) sends 'nothing, because of that error': Session{DryRun}, Config.DryRun and ToSQL of the same chain must end in an error with the same text (signature refusal-not-reported/...); what Statement.SQL holds next to that error is not compared (gorm builds the text before it refuses, for real as well)",
+		"Create(nil) is not generated (gorm panics on it, dry and for real alike: misuse outside the statement)",
 		"the statement-writing plugin is registered on a separate pair of handles (registering re-sorts the callback chains), all other operations run on untouched chains",
 	},
 	Cases: func(tier string) int {
